@@ -86,6 +86,7 @@ def reject_error(p):
 
 def run(fx, tier):
     v = Verdict('C15', tier)
+    v.rule('R-OWN', 'the capabilities the requests read are those of the CONNACK of THIS connection: connack_property reads mqtt_ctx::ca_props; its only writer is connect_op::on_connack, storing the decoded CONNACK properties before the connect can complete or continue (also on the enhanced-authentication path)')
     v.rule('R-DOM', 'capability table: every SEND path proves the capability respected; violating edges are REJECT paths with the documented error')
     n_reads = 0
     n_sub_send = [0, 0]
@@ -225,6 +226,8 @@ def run(fx, tier):
     want = set(DEFAULTS)
     if not want <= seen_props and not v.violations:
         raise AnalysisBroken('capabilities never read on any path: %s' % sorted(want - seen_props))
+    capability_source(fx, v)
+    v.expect_min('R-OWN', 8, 'capability store: writers, provenance, dominance x TUs')
     v.expect_min('R-DOM', 2000, 'capability obligations over perform() paths')
     return v.finish(
         'Each capability is a row (property, MQTT default, comparison, error). perform() of every request operation is '
@@ -299,3 +302,81 @@ def _result_is(p, what):
         if cm and cm[0] in ('==', '!=') and (enum_of(cm[2]) == what or enum_of(cm[1]) == what):
             val = (cm[0] == '==')
     return val
+
+
+def capability_source(fx, v):
+    from flow import defs_of
+    from acks import binding_of, is_deref_of_optional_from
+    # (a) what connack_property reads
+    for f in fx.functions(name='connack_property'):
+        if f.cls not in ('client_service', 'stream_context') or f.lam:
+            continue
+        rets = [f.resolve(x) for _, _, _, x in f.elements() if isinstance(x, dict) and x.get('k') == 'ret']
+        ok = False
+        if len(rets) == 1:
+            e = _exp(f, rets[0])
+            if f.cls == 'stream_context':
+                ok = contains(e, lambda n: n.get('k') == 'call' and n.get('op') == '[]' and contains(
+                    n.get('obj', (n.get('args') or [None])[0]), lambda m: m.get('k') == 'mem' and m.get('n') == 'ca_props'))
+            else:
+                ok = contains(e, lambda n: is_call(n, 'connack_property') and callee_cls(n) == 'stream_context')
+        v.check(ok, 'R-OWN', '%s::connack_property%s [%s]' % (f.cls, f.inst()[:40], f.tu), 'reads mqtt_ctx::ca_props of the stream context',
+                key='C15:R-OWN:connack_property:%s' % f.cls, where=f.file)
+    # (b) writers of ca_props
+    n_w = 0
+    for f in fx.fns:
+        for b, i, l, x in f.elements():
+            x = f.resolve({'k': 'elem', 'b': b, 'i': i})
+            tgt = None
+            if isinstance(x, dict) and x.get('k') == 'assign':
+                tgt = strip(x.get('l'))
+            elif isinstance(x, dict) and x.get('k') == 'call' and x.get('op') == '=' and x.get('args'):
+                tgt = strip(x['args'][0])
+            if isinstance(tgt, dict) and tgt.get('k') == 'mem' and tgt.get('n') == 'ca_props':
+                n_w += 1
+                v.check(f.cls == 'connect_op' and f.n == 'on_connack', 'R-OWN', 'writer of ca_props: %s::%s [%s]' % (f.cls, f.n, f.tu),
+                        'mqtt_ctx::ca_props is assigned only by connect_op::on_connack', key='C15:R-OWN:ca_props-writer:%s::%s' % (f.cls, f.n),
+                        where='%s:%s' % (f.path_file(), l))
+    # (c) provenance and dominance in on_connack
+    n_c = 0
+    for f in fx.functions(cls='connect_op', name='on_connack'):
+        n_c += 1
+        dom = f.dominators()
+        dec = [(b, i) for b, i, l, c in f.calls() if callee_name(c) == 'decode_connack']
+        stores = []
+        for b, i, l, x in f.elements():
+            x = f.resolve({'k': 'elem', 'b': b, 'i': i})
+            if isinstance(x, dict) and x.get('k') == 'call' and x.get('op') == '=' and x.get('args') and isinstance(strip(x['args'][0]), dict) \
+                    and strip(x['args'][0]).get('k') == 'mem' and strip(x['args'][0]).get('n') == 'ca_props':
+                stores.append((b, i, x))
+        inst = 'connect_op::on_connack%s [%s]' % (f.inst()[:40], f.tu)
+        if len(dec) != 1 or len(stores) != 1:
+            v.fail('R-OWN', inst + ':store', 'expected one decode_connack and one store of ca_props (found %d, %d)' % (len(dec), len(stores)),
+                   key='C15:R-OWN:on_connack:store', where=f.file)
+            continue
+        sb, si, sx = stores[0]
+        src = origin(f, sx['args'][1])
+        from_dec = binding_of(src, 2, lambda e: is_deref_of_optional_from(e, dec[0]))
+        v.check(bool(from_dec), 'R-OWN', inst + ':provenance', 'the stored capabilities are the properties of the CONNACK just decoded',
+                key='C15:R-OWN:on_connack:provenance', where=f.file)
+        exits = [(b, i, l, callee_name(c)) for b, i, l, c in f.calls()
+                 if (callee_name(c) == 'complete' and callee_cls(c) == 'connect_op') or callee_name(c) == 'async_auth']
+        if not exits:
+            raise AnalysisBroken('connect_op::on_connack: neither complete() nor async_auth() found')
+        for b, i, l, nm in exits:
+            ok = (b == sb and si < i) or (b != sb and sb in dom.get(b, set()))
+            v.check(ok, 'R-OWN', inst + ':stored-before-%s@%s' % (nm, l),
+                    'the capabilities are stored before the connect %s' % ('completes' if nm == 'complete' else 'continues with the authenticator (whose completion ends the connect)'),
+                    key='C15:R-OWN:on_connack:stored-before-%s' % nm, where='%s:%s' % (f.path_file(), l))
+    if n_c == 0:
+        raise AnalysisBroken('connect_op::on_connack not found')
+
+
+def _exp(f, x, depth=0):
+    if isinstance(x, dict):
+        if x.get('k') == 'elem' and depth < 30:
+            return _exp(f, f.resolve(x), depth + 1)
+        return {k: (_exp(f, v_, depth + 1) if k not in ('fn',) else v_) for k, v_ in x.items()}
+    if isinstance(x, list):
+        return [_exp(f, i_, depth + 1) for i_ in x]
+    return x
